@@ -12,7 +12,7 @@ Inductive mpc : Type :=
 | MDial
 | MWaitNoConn     (* select { ctx.Done / msgsToPanel / timer } after a failed dial *)
 | MProbe          (* write ping, read with 2 s deadline, classify, maybe write "\n" *)
-| MSpawn          (* go func() { ... } *)
+| MSpawn          (* wg.Add(1); go func() { ... }   (the Add is in main since /repo c935b5d) *)
 | MOnConnect
 | MRead           (* the read loop *)
 | MEofSleep       (* ASCII + io.EOF: time.Sleep(1 s) *)
@@ -26,7 +26,7 @@ Inductive mpc : Type :=
 
 Inductive wpc : Type :=
 | WAbsent         (* goroutine not created yet *)
-| WNotStarted     (* created, not yet scheduled: wg.Add(1) not yet executed *)
+| WNotStarted     (* created and registered with the wait group, not yet scheduled *)
 | WSelect
 | WExitStore      (* ctx.Done chosen: exit.Store(true) *)
 | WCloseConn      (* conn.Close() *)
@@ -76,7 +76,7 @@ Definition main_step (s : st) (e : menv) : option (st * lab) :=
   | MWaitNoConn, ESelTimer => Some (go MDial, LbSleptNoConn)
   | MWaitNoConn, ESelMsg => Some (go MDial, LbTau)
   | MProbe, ENone => Some (go MSpawn, LbTau)
-  | MSpawn, ENone => Some (mkSt MOnConnect (upd_cur s (set_w WNotStarted)) (s_wg s) (s_ctx s), LbTau)
+  | MSpawn, ENone => Some (mkSt MOnConnect (upd_cur s (set_w WNotStarted)) (s_wg s + 1) (s_ctx s), LbTau)
   | MOnConnect, ENone => Some (go MRead, LbConnect)
   | MRead, EReadOk => if c_open (cur s) then Some (go MRead, LbDeliver) else None
   | MRead, EReadFail eof =>
@@ -105,7 +105,7 @@ Definition writer_step (s : st) (i : nat) (w : wenv) : option (st * lab) :=
   | Some c =>
     let upd f dwg := Some (mkSt (s_m s) (upd_nth (s_cs s) i f) (s_wg s + dwg) (s_ctx s), LbTau) in
     match c_w c, w with
-    | WNotStarted, WNone => upd (set_w WSelect) 1
+    | WNotStarted, WNone => upd (set_w WSelect) 0
     | WSelect, WCtx => if s_ctx s then upd (set_w WExitStore) 0 else None
     | WSelect, WQuit => if c_quit c then upd (set_w WDefer) 0 else None
     | WSelect, WMsg => upd (set_w WSelect) 0
@@ -121,6 +121,36 @@ Definition step (s : st) (c : choice) : option (st * lab) :=
   | CMain e => main_step s e
   | CWriter i w => writer_step s i w
   | CCancel => if s_ctx s then None else Some (mkSt (s_m s) (s_cs s) (s_wg s) true, LbCancel)
+  end.
+
+(* The code BEFORE /repo c935b5d executed wg.Add(1) inside the writer goroutine: the spawn did
+   not touch the counter, the goroutine's first step incremented it.  Kept only to state the
+   defect that was found (Props/C11.v c11_legacy_wg_gap). *)
+Definition step_legacy (s : st) (c : choice) : option (st * lab) :=
+  match step s c with
+  | Some (s', l) =>
+    match c, s_m s with
+    | CMain ENone, MSpawn => Some (mkSt (s_m s') (s_cs s') (s_wg s' - 1) (s_ctx s'), l)
+    | CWriter i WNone, _ =>
+      match nth_error (s_cs s) i with
+      | Some cr => match c_w cr with
+                   | WNotStarted => Some (mkSt (s_m s') (s_cs s') (s_wg s' + 1) (s_ctx s'), l)
+                   | _ => Some (s', l)
+                   end
+      | None => Some (s', l)
+      end
+    | _, _ => Some (s', l)
+    end
+  | None => None
+  end.
+Fixpoint run_legacy (s : st) (cs : list choice) : st * list lab :=
+  match cs with
+  | [] => (s, [])
+  | c :: r =>
+    match step_legacy s c with
+    | Some (s', l) => let (sf, ls) := run_legacy s' r in (sf, l :: ls)
+    | None => run_legacy s r
+    end
   end.
 
 (* a run from [s] under a list of choices: final state and labels (disabled choices are skipped) *)
